@@ -250,8 +250,15 @@ def materialise_chain(ch, root, scn=None, dirpath="links", rng=None, top=True):
                 scn.files[path] = apply_tamper(sub_content, ls["tamper"], rng, scn.table)
             else:
                 lp = W.link_payload(ls["name"], ls["materials"], ls["products"], command=["do", ls["name"]])
+                tamper = ls["tamper"]
+                if tamper == "illformed_signed":
+                    # ill-formed BEFORE signing (the command as one string, not a list): validly signed content that is
+                    # not link metadata - in either format the file cannot be used, and which format it is stored in
+                    # must not decide what becomes of the verification
+                    lp["command"] = "do " + ls["name"]
+                    tamper = None
                 signers = [] if ls["signer"] is False else [ls["signer"]]
-                scn.files[path] = apply_tamper(W.wrap(lp, ls["fmt"], signers, scn.table), ls["tamper"], rng, scn.table)
+                scn.files[path] = apply_tamper(W.wrap(lp, ls["fmt"], signers, scn.table), tamper, rng, scn.table)
     recording = W.product_recording(ch.final)
     for ins in ch.inspections:
         cmd = ins.get("run") or W.insp_command(root, ins["ident"], ins["action"])
